@@ -746,10 +746,14 @@ def key_source(W, n, given=None):
     else:
         scen = given
     trace = W.drive("TestJwks", scen, "jwks", timeout=1500)
-    outf = W.path("jwks.verdict.json")
+    return key_source_judge(W, trace, scen)
+
+
+def key_source_judge(W, trace, scen, name="jwks"):
+    outf = W.path(name + ".verdict.json")
     cfg = ('INIT TInitL\nNEXT TNext\nCONSTANTS\n  MaxGen = 99\n  MaxOps = 0\n  Export = FALSE\n  RetryFirstFetch = FALSE\n  TraceFile = "%s"\n  OutFile = "%s"\n'
            'CONSTRAINT Mark\nINVARIANTS TInv Done\nPOSTCONDITION Post\nCHECK_DEADLOCK FALSE\n' % (trace, outf))
-    out, gen, dist, viol, d = W.tlc("KeySourceTrace", cfg, "jwks-trace", workers=1, timeout=1800, jvm=["-Dtlc2.tool.queue.IStateQueue=StateDeque"])
+    out, gen, dist, viol, d = W.tlc("KeySourceTrace", cfg, name + "-trace", workers=1, timeout=1800, jvm=["-Dtlc2.tool.queue.IStateQueue=StateDeque"])
     if viol:
         raise Infra("KeySourceTrace: %s violated on a state the trace search reached -- the specification is wrong:\n%s" % (viol, out[-1500:]))
     if not os.path.exists(outf):
